@@ -80,17 +80,18 @@ def _explorer():
 
 
 class SBool:
-    __slots__ = ('term', 'nonzero_of')
+    __slots__ = ('term', 'nonzero_of', 'zero_of')
 
-    def __init__(self, term, nonzero_of=None):
+    def __init__(self, term, nonzero_of=None, zero_of=None):
         self.term = term
-        self.nonzero_of = nonzero_of
+        self.nonzero_of = nonzero_of      # this condition is `x != 0` for that SInt x (guard absorption, lemma domain)
+        self.zero_of = zero_of            # this condition is `x == 0`
 
     def __bool__(self):
         return _explorer().decide(self.term)
 
     def __invert__(self):
-        return mkbool(z3.Not(self.term))
+        return not_(self)
 
     def __and__(self, o):
         return band_b(self, o)
@@ -154,7 +155,10 @@ def bterm_bool(v):
 
 def not_(v):
     if isinstance(v, SBool):
-        return mkbool(z3.Not(v.term))
+        r = mkbool(z3.Not(v.term))
+        if isinstance(r, SBool):
+            r.nonzero_of, r.zero_of = v.zero_of, v.nonzero_of
+        return r
     return not v
 
 
@@ -427,6 +431,8 @@ class SInt:
         if o is None:
             return False
         r = self._cmp(o, lambda a, b: a == b, False, False)
+        if isinstance(r, SBool) and isc(o) and o == 0:
+            r.zero_of = self
         return r
 
     def __ne__(self, o):
@@ -554,8 +560,8 @@ class SNum:
         return self._bin(o, lambda a, b: a - b, True)
 
     def __mul__(self, o):
-        if isinstance(o, (list, tuple)):
-            return SymRun(o, self)      # [0] * n with symbolic n
+        if isinstance(o, (list, tuple, bytes, bytearray)):
+            return SymRun(o, self)      # [0] * n / b'\\0' * n with symbolic n
         return self._bin(o, lambda a, b: a * b)
     __rmul__ = __mul__
 
@@ -612,6 +618,24 @@ class SNum:
 
     def __divmod__(self, o):
         return self // o, self % o
+
+    # bit operations of a Python int with a constant: floor division / remainder by a power of two (exact for negative
+    # values as well: Python ints behave as infinite two's complement)
+    def __rshift__(self, n):
+        if self.is_real or not isinstance(n, int) or isinstance(n, bool) or n < 0:
+            raise Unsupported('>> of a symbolic number by a non-constant')
+        return self // (1 << n)
+
+    def __lshift__(self, n):
+        if self.is_real or not isinstance(n, int) or isinstance(n, bool) or n < 0:
+            raise Unsupported('<< of a symbolic number by a non-constant')
+        return self * (1 << n)
+
+    def __and__(self, m):
+        if self.is_real or not isinstance(m, int) or isinstance(m, bool) or m < 0 or (m & (m + 1)) != 0:
+            raise Unsupported('& of a symbolic number with something else than 2**k - 1')
+        return self % (m + 1)
+    __rand__ = __and__
 
     def __pow__(self, o):
         if isinstance(o, int) and 0 <= o <= 4:
